@@ -6849,6 +6849,11 @@ def subn(
 
                         repl_slot_new = first_base._get_slice(first_idx, last_idx, first_field, False, copy_options)
 
+                        if ((first_base_cls := first_base.a.__class__) in (BoolOp, Compare)
+                            and repl_slot_new.a.__class__ is not first_base_cls
+                        ):  # single element slice normalized to the element itself, it is not a slice anymore and if it is a List, Tuple or Set it must not be put as a sequence of its own elements
+                            one = True
+
                 elif not isinstance(repl_slot_new, str):  # str could have come from static tag
                     raise MatchError('match substitution must be FST, None or str'
                                      f', got {repl_slot_new.__class__.__qualname__}')
